@@ -40,7 +40,7 @@ def explore(universe, variant, depth, simulate=None, workers=2, emitidx=True, sd
 
 
 def run(prop, level, rule, plans, tags=None, keys=("plain",), modes=("compiled",), hashseeds=(0,), nshards=8, queries=True,
-        extra_assume=(), episodes=0):
+        extra_assume=(), episodes=0, cross_config=False):
     """plans: list of dict(universe, variant, depth, simulate=None|N).  Returns exit code."""
     v = Verdict(prop, level, get_tier(), rule)
     tags = tags or [prop]
@@ -59,11 +59,12 @@ def run(prop, level, rule, plans, tags=None, keys=("plain",), modes=("compiled",
     for plan, g, r in graphs:
         tot_states += len(g.states)
         tot_trans += len(g.edges)
-        for mode in modes:
-            for kk in keys:
+        for kk in keys:
+            dig = {} if cross_config else None
+            for mode in modes:
                 fails, st, samples = mr.run_replay(g, plan["universe"], kk, scratch[mode], mode, list(hashseeds), nshards, queries=queries,
                                                    fan_keep=plan.get("fan_keep", 1.0), seed=seed(),
-                                                   episodes=plan.get("episodes", episodes))
+                                                   episodes=plan.get("episodes", episodes), digest=dig)
                 stats.update(st)
                 for s in samples[:1]:
                     v.sample({"universe": plan["universe"], "variant": plan["variant"], **s})
@@ -75,6 +76,24 @@ def run(prop, level, rule, plans, tags=None, keys=("plain",), modes=("compiled",
                                 {"engine": "mgr_replay", "plan": plan, "mode": mode, "keys": kk, "hashseed": f["hashseed"],
                                  "path": f["path"], "detail": f["detail"], "tags": f["tags"]},
                                 known_key=f["known"])
+            if cross_config:
+                trs = dig.pop("transcripts", {})
+                cfgs = sorted(dig)
+                ref = cfgs[0]
+                stats["cross_config_edges"] += len(dig[ref])
+                stats["cross_config_configurations"] = len(cfgs)
+                for c in cfgs[1:]:
+                    keys_ = set(dig[ref]) | set(dig[c])
+                    for ei in sorted(keys_):
+                        if dig[ref].get(ei) != dig[c].get(ei):
+                            lab = g.edges[ei][1]
+                            cyc = bool(lab.get("cyc"))      # only the step itself: earlier structural-cycle steps were resynchronised
+                            v.violation(f"[{plan['universe']}/{plan['variant']} keys={kk}] transcript (outcome, contents, dump()) of {lab.get('a')}({lab.get('l', lab.get('kind', ''))}) "
+                                        f"differs between configuration {ref} and {c}",
+                                        {"engine": "mgr_replay", "plan": plan, "keys": kk, "configs": [list(ref), list(c)],
+                                         "path": [g.edges[i][1] for i in mr.path_to(g, g.edges[ei][0])] + [lab],
+                                         "transcripts": [trs.get(ref, {}).get(ei), trs.get(c, {}).get(ei)], "tags": ["C20"]},
+                                        known_key="struct-cycle-order" if cyc else None)
         percfg.append({**plan, "tlc_generated": r.states, "tlc_distinct": r.distinct, "emitted_states": len(g.states),
                        "emitted_transitions": len(g.edges), "tlc_wall_s": round(r.wall, 1)})
     v.add(stats["edges"])
